@@ -36,6 +36,7 @@ fn run_line(line: &str) -> String {
         "OBSERVE" => observe::run_observe(args),
         "OWN" => observe::run_own(args),
         "HASHI" => observe::run_hashi(args),
+        "EQHASH" => observe::run_eqhash(args),
         "DISC" => mdns::run_disc(args),
         "HISTB" => mdns::run_histb(args),
         "SUFFIX" => textapi::run_suffix(args),
